@@ -138,12 +138,22 @@ let cfg t : string =
             let (s', acts) = step !s (Tick now) in
             s := s';
             "T:" ^ evals acts
-        | "r" ->
+        | ("r" | "rs") as kind ->
+            (* rs: the storage request of this refresh is not taken within the timeout: refresh_events false = no event *)
             let now = next_z t in
+            if kind = "rs" then ignore (next t);
             let pres = next_list t (fun t -> let g = pos_of_string (next t) in let r = next_z t in (g, r)) in
-            let (s', acts) = step !s (Refresh (now, pres)) in
+            let (s', acts) = feed step !s (refresh_events (kind = "r") now pres) in
             s := s';
             if List.mem Panic acts then (stop := true; "PANIC") else "R:" ^ fmt_groups (groups_to_list s'.groups)
+        | "ue" ->
+            let _now = next_z t in
+            settle_now ();
+            if !s.ph = Unlocking then begin
+              let (s', acts) = step !s UnlockErr in
+              s := s';
+              if List.mem Panic acts then (stop := true; "PANIC") else "UE" ^ pend ()
+            end else "!UE" ^ pend ()
         | k -> failwith ("drv_evalloop: unknown cfg event " ^ k) in
       out := o :: !out
     end
